@@ -153,4 +153,8 @@ theorem C15_tgen_writeback_fields :
     n_rewrite_meta_assign = 1 := by decide
 theorem C13_tgen_writeback_meta : has_rewrite_meta_keep = "yes" ∧ n_rewrite_meta_assign = 1 := by decide
 theorem C31_tgen_writeback_meta : has_rewrite_meta_keep = "yes" ∧ n_rewrite_meta_assign = 1 := by decide
+/-- C06 / C33: what GC writes back carries the user meta and the expiry of the entry it moves -/
+theorem C06_tgen_writeback_fields :
+    has_rewrite_meta_keep = "yes" ∧ has_rewrite_umeta_copy = "yes" ∧ has_rewrite_exp_copy = "yes" := by decide
+theorem C33_tgen_writeback_expiry : has_rewrite_exp_copy = "yes" := by decide
 end Badger
